@@ -69,7 +69,9 @@ func Start() *Engine {
 			case w := <-e.addWatcher:
 				logrus.Info("Add watcher")
 				watchers[w.id] = w
-				w.update(ctx, global)
+				if !w.update(ctx, global) {
+					delete(watchers, w.id)
+				}
 			case id := <-e.removeWatcher:
 				logrus.Info("Remove watcher")
 				// The watcher may already be gone (it failed, or was cancelled before).
@@ -90,7 +92,9 @@ func Start() *Engine {
 				global = global.With(Root, value)
 				for i, w := range watchers {
 					logrus.Infof("Update watcher %d", i)
-					w.update(ctx, global)
+					if !w.update(ctx, global) {
+						delete(watchers, i)
+					}
 				}
 			case <-e.stop:
 				logrus.Infof("Stop")
@@ -132,7 +136,7 @@ func (e *Engine) Observe(
 	cancel := func() {
 		e.removeWatcher <- id
 	}
-	e.addWatcher <- &watcher{id, cancel, expr, onupdate, onclose}
+	e.addWatcher <- &watcher{id, expr, onupdate, onclose}
 	return cancel
 }
 
@@ -143,29 +147,34 @@ type updateRequest struct {
 
 type watcher struct {
 	id       uint64
-	cancel   func()
 	expr     rel.Expr
 	onupdate func(rel.Value) error
 	onclose  func(error)
 }
 
-func (w *watcher) update(ctx context.Context, global rel.Scope) {
+// update sends the watcher the value of its expression. It returns false, after
+// telling the watcher why via onclose, if the watcher failed and must be dropped
+// by the caller. It runs on the engine's goroutine, so it must not send on
+// removeWatcher, which only that goroutine receives.
+func (w *watcher) update(ctx context.Context, global rel.Scope) (ok bool) {
 	defer func() {
 		if err := recover(); err != nil {
+			ok = false
 			w.onclose(errors.WrapPrefix(err, "update panic", 0))
 		}
 	}()
 
 	value, err := w.expr.Eval(ctx, global)
 	if err != nil {
-		w.cancel()
 		w.onclose(err)
-		return
+		return false
 	}
 
 	if err = w.onupdate(value); err != nil {
-		w.cancel()
+		w.onclose(err)
+		return false
 	}
+	return true
 }
 
 func (w *watcher) close() {
